@@ -792,6 +792,20 @@ def outer_errors(ctx, da, ntests, scheds):
     return n
 
 
+# warnings of gen/c02_gcvars.py on /repo HEAD that were read and judged harmless: (function, variable, kind) -> reason
+GCVARS_TRIAGED = {
+    ("sexp_flatten_dot", "(nested result)", "N"): "sexp_nreverse_op allocates only its type-error exception; the argument is a list here",
+    ("sexp_string_utf8_index_ref", "off", "A"): "a string cursor is an immediate (an exception is returned before the use)",
+    ("sexp_string_utf8_index_set", "off", "A"): "a string cursor is an immediate (an exception is returned before the use)",
+    ("sexp_make_null_env_op", "(nested result)", "N"): "an interned symbol is rooted by the symbol table (or is an immediate)",
+    ("sexp_range_exception", "(nested result)", "N"): "an interned symbol is rooted by the symbol table",
+    ("sexp_read_string", "res", "U"): "res is tested with sexp_fixnump before the later calls: an immediate on that path",
+    ("sexp_read_number", "(nested result)", "N"): "polar literal with a ratio magnitude: tried under every:1/2/3 (1/3@2, 7/2@1/2), no failure; sexp_to_double reads its argument before it can allocate",
+    ("sexp_write_simple_object", "x", "A"): "exception returned by a failing custom type writer, printed at once: error path, not reproduced",
+    ("sexp_read_raw", "tmp2", "A"): "irritant of the `expected closing brace` reader error of #{...} literals, which the default reader rejects earlier: not reachable in the default configuration",
+}
+
+
 def run(ctx):
     ctx.cov["rule"] = ("inner: one case = one collection (real sexp_mark + sexp_sweep) inside a generated workload (random mix of 20 snippets: deep "
                        "recursion, closures, vectors with trailing duplicates/immediates, call/cc + dynamic-wind, hash tables, bignums, ports, records "
@@ -840,6 +854,25 @@ def run(ctx):
     except Exception as e:
         ctx.broken("gen:C02_VmTop", "vm.c opcode-switch translator failed closed: %s" % e)
         return
+    # generated obligation (search aid with a triaged allow-list): sexp_gc_var discipline of C locals, from the clang AST
+    from gen import c02_gcvars
+    try:
+        work = os.path.join(B.SCRATCH, "tmp_c02_work")
+        os.makedirs(work, exist_ok=True)
+        gv = c02_gcvars.analyse(d, work, units=("eval", "sexp", "vm", "bignum", "simplify") if ctx.thorough else ("eval", "sexp", "vm", "bignum"))
+        ctx.cov["gcvars_functions"] = gv["functions"]
+        ctx.cov["gcvars_unregistered_sexp_locals"] = gv["unregistered_sexp_locals"]
+        new_w = [w for w in gv["warnings"] if (w["function"], w["var"], w["kind"]) not in GCVARS_TRIAGED]
+        ctx.cov["gcvars_warnings_triaged_false_positive"] = len(gv["warnings"]) - len(new_w)
+        for w in new_w[:12]:
+            ctx.broken("gcvars:%s:%s:%s" % (w["function"], w["var"].strip("()").replace(" ", "-"), w["kind"]),
+                       "%s.c:%s %s: %s" % (w["unit"], w["line"], w["function"], {
+                           "U": "the unregistered local `%s` holds the fresh result of %s (line %s) and is read after a later call that may allocate",
+                           "A": "the unregistered local `%s` holds the fresh result of a call and is passed to a call that may allocate (%s; assigned at line %s): the callee allocates before it stores its arguments",
+                           "N": "%s: the fresh result of a nested call is passed directly to a call that may allocate (%s, line %s)"}[w["kind"]] % (w["var"], w["callee"], w["def_line"])))
+        ctx.trust("gen/c02_gcvars.py is a search aid used as an obligation through a triaged allow-list (props/C02.py GCVARS_TRIAGED: %d entries, each with the reason why the flagged value is an immediate, rooted elsewhere, or only reachable on an error path that was tried); it does not see roots held through other objects nor freshness of results" % len(GCVARS_TRIAGED))
+    except Exception as e:
+        ctx.broken("gen:C02_gcvars", "gc-var discipline analysis failed closed: %s" % e)
     okc = ctx.coq_obligations("Properties_C02")     # a failing layout obligation also shows up as a mark/oracle disagreement in inner()
     if okc and ctx.thorough:
         coqdir = os.path.join(HERE, "..", "coq")
@@ -881,6 +914,11 @@ def run(ctx):
     else:
         lscheds = [("every:%d" % ctx.rng.choice([53, 61, 67]), False)]
     nl = outer_libs(ctx, da, lscheds)
+    if ctx.thorough:
+        l2 = [("every:%d" % ctx.rng.choice([13, 17, 19]), False), ("seed:%d:11" % ctx.rng.randrange(1, 1000), True)]
+    else:
+        l2 = [("every:%d" % ctx.rng.choice([307, 311, 331]), False)]
+    nl += outer_libs(ctx, da, l2, srcname="c02_libs2.scm", tag="libs2")
     t5 = time.time()
     rs = lambda: ctx.rng.randrange(1, 100000)
     if ctx.thorough:
@@ -893,7 +931,7 @@ def run(ctx):
     if ctx.thorough:
         ne = outer_errors(ctx, da, None, [("every:1", 0, True), ("every:2", 0, False), ("every:2", 1, False), ("every:3", 1, True), ("seed:%d:3" % rs(), 0, False)])
     else:
-        ne = outer_errors(ctx, da, 8, [("every:1", 0, False), ("every:2", 1, False)])
+        ne = outer_errors(ctx, da, 8, [("every:1", 0, False)])
     t7 = time.time()
     ctx.note("primitive-error paths under dense forced collections: %d runs %.0fs" % (ne, t7 - t6))
     ctx.note("timing: inner %d collections %.0fs; asan build %.0fs; outer %d runs %.0fs; dense %d runs %.0fs; library dense %d runs %.0fs" % (
